@@ -31,6 +31,8 @@ ASSUMPTIONS = [
     "UnsupervisedOPF._normalized_cut (module / class attributes looked up at call time)",
 ]
 TRAIN = {"X": [[0.0], [1.0], [2.5], [6.0], [7.0]], "labels": [0, 0, 1, 1, 0]}
+TRAIN10 = {"X": [[0.0], [1.0], [2.5], [6.0], [7.0], [7.5], [11.0], [12.0], [20.0], [21.5]],
+           "labels": [0, 0, 1, 1, 0, 1, 0, 0, 1, 1]}
 TRAIN2 = {"X": [[0.0, 0.0], [1.0, 0.0], [0.0, 1.0], [5.0, 5.0], [5.0, 6.0]], "labels": [0, 1, 0, 1, 1]}
 
 
@@ -46,6 +48,10 @@ def plan(tier, seed):
     for n in (3, 4) + ((5,) if tier == "thorough" else ()):
         for a, b in E.chunks(4 ** n, 16):
             shards.append(("nat", n, a, b))
+    # candidate ranges up to k = 9 on a ten-sample set (ranges that cross 8 included)
+    for mx in range(1, 10):
+        for mn in range(max(1, mx - 3), mx + 1):
+            shards.append(("su10", mn, mx))
     return shards
 
 
@@ -120,9 +126,54 @@ def execute(prog, model=None):
             "calls": calls, "model": m}
 
 
+def independent_accuracies(prog):
+    """Validation accuracy of every candidate k, recomputed outside the training loop: a fresh
+    k-NN subgraph per k (arcs, densities, clustering), predictions on the validation set, and the
+    accuracy from the definition."""
+    from opfython.models import KNNSupervisedOPF
+    from opfython.subgraphs import KNNSubgraph
+    from mc.props import c20
+    X = np.array(prog["X"], dtype=float)
+    lab = np.array(prog["labels"], dtype=int)
+    Xv = np.array(prog["val"]["X"], dtype=float)
+    Yv = [int(v) for v in prog["val"]["labels"]]
+    out = []
+    for k in range(1, prog["max_k"] + 1):
+        m = KNNSupervisedOPF(max_k=k, distance=prog["metric"])
+        m.subgraph = KNNSubgraph(X.copy(), lab.copy())
+        m.subgraph.best_k = k
+        m.subgraph.create_arcs(k, m.distance_fn, False, None)
+        m.subgraph.calculate_pdf(k, m.distance_fn, False, None)
+        m._clustering()
+        preds = [int(p) for p in m.predict(Xv.copy())]
+        K = max(max(Yv), max(preds)) + 1
+        out.append(float(c20.ref_measures(Yv, preds, K)[0]) if all(Yv.count(c) for c in range(K))
+                   else None)
+    return out
+
+
 def judge(prog, ex):
     unsup = prog["model"] == "UnsupervisedOPF"
     vals, ev, bk = ex["values"], ex["evaluated"], ex["best_k"]
+    if not unsup and prog.get("script") is None and prog["mode"] == "features":
+        # natural criterion: the values the training loop used must be the real validation accuracies
+        try:
+            true = independent_accuracies(prog)
+        except Horizon:
+            raise
+        except Exception:
+            true = None
+        if true is not None and all(t is not None for t in true) and len(true) == len(vals):
+            for k, (t, v) in enumerate(zip(true, vals), 1):
+                if abs(t - v) > 1e-9:
+                    return ("candidate k=%d was scored %r by the training loop, but the validation accuracy of "
+                            "the model built with k=%d is %r (all candidates: %s)" % (k, v, k, t, true)), \
+                        "criterion is not the validation accuracy"
+            best = max(true)
+            want = true.index(best) + 1
+            if bk != want:
+                return ("validation accuracies %s: best_k = %d but the smallest k with the highest accuracy is %d"
+                        % (true, bk, want)), "best_k is not the best candidate"
     lo = prog["min_k"] if unsup else 1
     hi = prog["max_k"]
     cand = list(range(lo, hi + 1))
@@ -227,6 +278,13 @@ def _programs(shard, seed):
             yield {"model": "KNNSupervisedOPF", "mode": "features", "X": X, "metric": "euclidean",
                    "labels": T["labels"], "max_k": mk, "val": {"X": X, "labels": T["labels"]},
                    "script": list(script)}
+    elif kind == "su10":
+        _, mn, mx = shard
+        X = (np.array(TRAIN10["X"]) * sc).tolist()
+        alphabet = [0.0, 1e-21, 0.5, 1.0] if mx - mn < 3 else [0.0, 0.5, 1.0]
+        for script in itertools.product(alphabet, repeat=mx - mn + 1):
+            yield {"model": "UnsupervisedOPF", "mode": "features", "X": X, "metric": "euclidean",
+                   "labels": TRAIN10["labels"], "min_k": mn, "max_k": mx, "script": list(script)}
     elif kind == "su":
         _, ti, mn, mx = shard
         T = [TRAIN, TRAIN2][ti]
@@ -253,6 +311,10 @@ def _programs(shard, seed):
                         yield {"model": "KNNSupervisedOPF", "mode": "features", "X": X,
                                "metric": "euclidean", "labels": lab, "max_k": mx, "val": v,
                                "script": None}
+                    # the caller passes the very same array objects as training and validation set
+                    yield {"model": "KNNSupervisedOPF", "mode": "features", "X": X, "metric": "euclidean",
+                           "labels": lab, "max_k": mx, "val": {"X": X, "labels": lab}, "script": None,
+                           "alias_val": True}
 
 
 def run(shard, seed):
